@@ -110,6 +110,38 @@ pub fn run(seed: u64, n: usize, out: &mut Out, tier: &str) {
             }
         }
     }
+    // (3a') the permission gate is checked against the resources in force: `use_resources` replaces the whole set, so a
+    //       scriptlet given again with another permission mask (or not at all) is judged by the latest call only
+    for _ in 0..(n / 40).max(6) {
+        let list_perm: u8 = r.below(4) as u8;
+        let (p1, p2): (u8, u8) = (r.below(4) as u8, r.below(4) as u8);
+        let lines = vec!["example.com##+js(fnlet, a)".to_string(), "||ads.test/fnlet.js$script,redirect=fnlet.js".to_string()];
+        let mk = |perm: u8| mk_resource("fnlet.js", &[], ResourceType::Mime(MimeType::ApplicationJavascript), "function fnlet(a, b, c) { BODY_FNLET }", perm);
+        let other = mk_resource("other.js", &["fnlet-alias"], ResourceType::Mime(MimeType::ApplicationJavascript), "function other() { OTHER }", 0);
+        let build = || {
+            let mut fs = adblock::lists::FilterSet::new(true);
+            fs.add_filters(&lines, adblock::lists::ParseOptions { permissions: adblock::resources::PermissionMask::from_bits(list_perm), ..Default::default() });
+            Engine::from_filter_set(fs, true)
+        };
+        let second: Vec<adblock::resources::Resource> = match r.below(3) { 0 => vec![mk(p2)], 1 => vec![other.clone()], _ => vec![mk(p2), other.clone()] };
+        let mut e = build();
+        e.use_resources(vec![mk(p1), other.clone()]);
+        e.use_resources(second.clone());
+        let mut fresh = build();
+        fresh.use_resources(second.clone());
+        let (a, b) = (e.url_cosmetic_resources("https://example.com/").injected_script, fresh.url_cosmetic_resources("https://example.com/").injected_script);
+        let q = adblock::request::Request::new("https://ads.test/fnlet.js", "https://example.com/", "script").unwrap();
+        let (ra, rb) = (e.check_network_request(&q).redirect, fresh.check_network_request(&q).redirect);
+        // independent expectation: injected iff the latest set has fnlet.js and the list's permissions cover its mask
+        let has = second.iter().any(|x| x.name == "fnlet.js");
+        let expect_injected = has && (p2 & !list_perm) == 0;
+        if a != b || ra != rb || a.contains("BODY_FNLET") != expect_injected || ra.is_some() != (has && p2 == 0) {
+            out.fail("resources-of-an-earlier-use_resources-call-still-in-force", None, json!({"rules": lines, "list_permission": list_perm, "first_call_fnlet_permission": p1,
+                "second_call": second.iter().map(|x| x.name.clone()).collect::<Vec<_>>(), "second_call_fnlet_permission": p2,
+                "injected_after_both_calls": a.contains("BODY_FNLET"), "injected_fresh": b.contains("BODY_FNLET"), "expected_injected": expect_injected, "redirect_after_both": ra, "redirect_fresh": rb}));
+        }
+        out.bump("use_resources_replacement_probes");
+    }
     // (3b) exceptions across the label hierarchy: "a scriptlet exception removes exactly the identical injection
     //      and a blanket exception removes all" — wherever along host / parent domain / entity either rule sits
     for _ in 0..n / 4 {
